@@ -78,7 +78,7 @@ def make_payload(ptype, T, boundary='bnd'):
     raise AssertionError(ptype)
 
 
-def chunk_wire(body, sizes, endless_chunk=None, long_ext=None):
+def chunk_wire(body, sizes, endless_chunk=None, long_ext=None, spelling='lower'):
     """-> (wire, offsets) where offsets[k] = wire offset right after payload byte k (1-based), computed lazily via
     function.  sizes are cycled over the body."""
     out = bytearray()
@@ -90,10 +90,12 @@ def chunk_wire(body, sizes, endless_chunk=None, long_ext=None):
     while pos < len(body):
         s = min(len(body) - pos, sizes[i % len(sizes)])
         i += 1
-        line = b'%x\r\n' % s
+        # the spelling of a chunk size is the client's choice (RFC 7230 4.1: 1*HEXDIG, either case, leading zeros)
+        digits = {'lower': b'%x', 'upper': b'%X', 'zeros': b'00%x', 'upper_zeros': b'0%X'}[spelling] % s
+        line = digits + b'\r\n'
         if long_ext is not None and i - 1 == long_ext[0]:
             # a chunk extension longer than the buffer: the size line must be given up after one buffer
-            line = b'%x;x=' % s + b'a' * long_ext[1] + b'\r\n'
+            line = digits + b';x=' + b'a' * long_ext[1] + b'\r\n'
             long_ext_at.append(len(out))
         maxline = max(maxline, len(line))
         out += line
@@ -158,6 +160,8 @@ def _gen_case(rng, tier):
     if case['framing'] == 'chunked' and not case['endless'] and len(body) > 0 and rng.random() < 0.12:
         n_chunks = max(1, len(body) // max(1, max(case['chunk_sizes'])))
         case['long_ext'] = [rng.randrange(0, min(n_chunks, 4)), B + rng.choice([1, 7, 300, 5000])]
+    if case['framing'] == 'chunked':
+        case['hex'] = rng.choice(['lower', 'lower', 'upper', 'upper', 'zeros', 'upper_zeros'])
     return case
 
 
@@ -184,7 +188,7 @@ def _run_case(case):
             endless_pat = line + b'z' * c + b'\r\n'
             ec = (c, len(line))
         le = case.get('long_ext')
-        wire, marks, maxline = chunk_wire(body, case['chunk_sizes'], endless_chunk=ec, long_ext=le)
+        wire, marks, maxline = chunk_wire(body, case['chunk_sizes'], endless_chunk=ec, long_ext=le, spelling=case.get('hex', 'lower'))
         long_line_at = chunk_wire.long_ext_at[0] if (le and chunk_wire.long_ext_at) else None
         cl = None
         if K is not None:
@@ -332,6 +336,8 @@ def _shrink_candidates(case):
         yield dict(case, sched=sc)
     if case['framing'] == 'chunked':
         yield dict(case, framing='cl')
+        if case.get('hex', 'lower') != 'lower':
+            yield dict(case, hex='lower')
         if case.get('chunk_sizes') != [7]:
             yield dict(case, chunk_sizes=[7])
     for T in shrink.int_cands(case['T'], 0):
